@@ -17,7 +17,7 @@ Uses only the op lines and the implementation's answers (never the model):
   * single queries (`bal`, `all`, `supply`, `dump-bank`) agree with the balances known at that point.
 """
 
-_MUT = ("init", "mint", "send", "sendt", "burn")
+_MUT = ("init", "mint", "send", "sendt", "sendr", "burn")
 
 
 def _pdec(s):
@@ -270,7 +270,7 @@ def pred_bank(ops, impl):
                     _, pt, _ = pending[0]
                     tot = _totals(_coins(pt[-1]))
                     for d in cur.denoms:
-                        if pt[0] in ("send", "sendt"):
+                        if pt[0] in ("send", "sendt", "sendr"):
                             e = prev.supply[d]
                         elif pt[0] == "burn":
                             e = prev.supply[d] - tot.get(d, 0)
@@ -310,9 +310,9 @@ def nt_bank(ops, impl):
         t = op.split()
         if not t:
             continue
-        if t[0] in ("send", "sendt") and out == "ok":
+        if t[0] in ("send", "sendt", "sendr") and out == "ok":
             ok_send = True
-        if t[0] in ("send", "sendt", "burn") and out == "err":
+        if t[0] in ("send", "sendt", "sendr", "burn") and out == "err":
             cs = _coins(t[-1])
             if cs and any(a > 0 for _, a in cs):
                 rejected = True
